@@ -58,6 +58,11 @@ impl<R: Read + Seek> ReadBox<&mut R> for MvexBox {
                 ));
             }
 
+            // Break if size zero BoxHeader, which can result in dead-loop.
+            if s == 0 {
+                break;
+            }
+
             match name {
                 BoxType::MehdBox => {
                     mehd = Some(MehdBox::read_box(reader, s)?);
